@@ -498,15 +498,17 @@ func checkSign(p signP) (string, *mc.Viol) {
 		v.What = desc + ": " + v.What
 		return "", v
 	}
+	// the signature is ONE pair of integers that the caller shows to four verifiers in turn
+	r0, s0 := new(big.Int).Set(r), new(big.Int).Set(s)
 	var okHere, okStd, unHere, unStd bool
-	if pn := mc.Catch(func() { okHere = ecdsa.Verify(pkR, digest, new(big.Int).Set(r), new(big.Int).Set(s)) }); pn != "" {
+	if pn := mc.Catch(func() { okHere = ecdsa.Verify(pkR, digest, r, s) }); pn != "" {
 		return "", &mc.Viol{Sig: ci.Name + ": Verify panics on a blinded key", What: desc + ": " + pn}
 	}
 	if !okHere {
 		return "", &mc.Viol{Sig: ci.Name + ": blind-key signature does not verify under the blinded public key (this package)", What: desc}
 	}
 	if pn := mc.Catch(func() {
-		okStd = stdecdsa.Verify(&stdecdsa.PublicKey{Curve: ci.C, X: pkR.X, Y: pkR.Y}, digest, new(big.Int).Set(r), new(big.Int).Set(s))
+		okStd = stdecdsa.Verify(&stdecdsa.PublicKey{Curve: ci.C, X: pkR.X, Y: pkR.Y}, digest, r, s)
 	}); pn != "" {
 		return "", &mc.Viol{Sig: ci.Name + ": crypto/ecdsa.Verify panics on the blinded key", What: desc + ": " + pn}
 	}
@@ -514,13 +516,16 @@ func checkSign(p signP) (string, *mc.Viol) {
 		return "", &mc.Viol{Sig: ci.Name + ": blind-key signature does not verify under the blinded public key (crypto/ecdsa)", What: desc}
 	}
 	if pn := mc.Catch(func() {
-		unHere = ecdsa.Verify(clonePub(ci.C, m.pkX, m.pkY), digest, new(big.Int).Set(r), new(big.Int).Set(s))
+		unHere = ecdsa.Verify(clonePub(ci.C, m.pkX, m.pkY), digest, r, s)
 	}); pn != "" {
 		return "", &mc.Viol{Sig: ci.Name + ": Verify panics on the unblinded key", What: desc + ": " + pn}
 	}
-	unStd = stdecdsa.Verify(&stdecdsa.PublicKey{Curve: ci.C, X: m.pkX, Y: m.pkY}, digest, new(big.Int).Set(r), new(big.Int).Set(s))
+	unStd = stdecdsa.Verify(&stdecdsa.PublicKey{Curve: ci.C, X: m.pkX, Y: m.pkY}, digest, r, s)
 	if unHere || unStd {
 		return "", &mc.Viol{Sig: ci.Name + ": blind-key signature verifies under the unblinded key", What: fmt.Sprintf("%s: here=%v crypto/ecdsa=%v", desc, unHere, unStd)}
+	}
+	if r.Cmp(r0) != 0 || s.Cmp(s0) != 0 {
+		return "", &mc.Viol{Sig: ci.Name + ": verification changes the signature it was given", What: desc}
 	}
 	return "sign: accepted under blinded key by both verifiers, rejected under unblinded key", nil
 }
